@@ -380,7 +380,14 @@ func (lc *LinkCtx) OpenUpstream(t *message.UpstreamOpenRequest) *message.Upstrea
 	b := lc.B
 	b.mu.Lock()
 	defer b.mu.Unlock()
-	us := &UpState{ID: StreamIDFor("up", t.SessionID, len(b.upOrder)), SessionID: t.SessionID, QoS: t.QoS, OpenReq: t,
+	same := 0
+	for _, o := range b.upOrder {
+		if o.SessionID == t.SessionID {
+			same++
+		}
+	}
+	// the id is a function of the session id (and of how many earlier streams used it): callers can check correlation
+	us := &UpState{ID: StreamIDFor("up", t.SessionID, same), SessionID: t.SessionID, QoS: t.QoS, OpenReq: t,
 		Aliases: map[uint32]message.DataID{}, RevAlias: map[message.DataID]uint32{}, LinkAlias: map[int]uint32{}, IDsSeen: map[message.DataID]int{}}
 	b.ups[us.ID] = us
 	b.upOrder = append(b.upOrder, us)
